@@ -45,10 +45,14 @@ def attach_post(target: str, condition: Callable, aliases: List[str] = ()) -> Re
     rec = Recorder(target)
     modname, attr = target.split(":")
     mod = importlib.import_module(modname)
-    original = getattr(mod, attr)
+    holder = mod
+    parts = attr.split(".")
+    for part in parts[:-1]:
+        holder = getattr(holder, part)
+    original = getattr(holder, parts[-1])
     cond = condition(rec)
     wrapped = icontract.ensure(cond, error=ContractBroken)(original)
-    setattr(mod, attr, wrapped)
+    setattr(holder, parts[-1], wrapped)
     for alias in aliases:
         amod, aattr = alias.split(":")
         m = importlib.import_module(amod)
